@@ -1,5 +1,155 @@
 import FxVerif.Model.C14
+import FxVerif.Proofs.C14
+/-!
+# C14 — account migration moves everything, once, to the address that authorised it
+
+Property theorems only.  `cfg` is computed from `Gen/C14.lean`, which is regenerated from `/repo` on every run: which
+keys `Execute` rewrites, how far the gov scan walks the proposal queues, the signed bytes, the handler order, the
+`Validate` checks.  `cfg_from_code` is the obligation tying the theorems to the code; when the code loses the 0x71 /
+0x38 rewrite, walks the proposal queues only up to the block time, signs other bytes or drops a check, it stops
+checking.
+-/
 namespace FxVerif.Props.C14
-open FxVerif.Model.C14
-theorem placeholder : True := trivial
+open FxVerif.Model.C14 FxVerif.Proofs.C14
+
+/-- obligation over the regenerated facts: the code rewrites the delegations-by-validator and unbonding-id indexes,
+walks both proposal queues completely, runs validate-all / execute-all / record in this order, compares the recovered
+signer with the target, and rejects validator operators and targets with staking records -/
+theorem cfg_from_code :
+    cfg = { rewriteDelIdx := true, rewriteUnbId := true, govScanAll := true, orderOk := true,
+            sigRequired := true, checkOperator := true, checkTarget := true } := by decide
+
+/-- the bytes `ValidateBasic` hashes are prefix ++ source ++ target, in this order -/
+theorem signed_bytes_order (pfx : List Nat) (enc : Addr → List Nat) (frm to : Addr) :
+    signedBytes Gen.C14.signedFields pfx enc frm to = pfx ++ (enc frm ++ enc to) := by
+  have h : Gen.C14.signedFields = ["prefix", "from", "to"] := by decide
+  rw [h]
+  simp [signedBytes]
+
+/-- what `migrate` does once every check passed -/
+def moved (s : State) (frm to : Addr) : State :=
+  setRecord (stakingExecute cfg (bankExecute s frm to) frm to) frm to
+
+/-- inversion of an accepted migration: every check passed, and the state is the executed one -/
+theorem migrate_ok_inv {s s' : State} {frm to : Addr} {sigOk : Bool} (h : migrate cfg s frm to sigOk = .ok s') :
+    frm ≠ to ∧ sigOk = true ∧ get s.recs frm = none ∧ get s.recs to = none ∧ s.hasKey.contains frm = true ∧
+    stakingValidate cfg s frm to = none ∧ govRefuses cfg s frm to = false ∧ s' = moved s frm to := by
+  unfold migrate at h
+  rw [cfg_from_code] at h
+  simp only [Bool.true_and] at h
+  split at h
+  · cases h
+  · rename_i h1
+    split at h
+    · cases h
+    · rename_i h2
+      split at h
+      · cases h
+      · rename_i h3
+        split at h
+        · cases h
+        · rename_i h4
+          rw [← cfg_from_code] at h
+          split at h
+          · cases h
+          · rename_i h5
+            split at h
+            · cases h
+            · rename_i h6
+              cases h
+              refine ⟨?_, ?_, ?_, ?_, ?_, h5, ?_, rfl⟩
+              · intro e; subst e; simp at h1
+              · simpa using h2
+              · cases hh : get s.recs frm <;> simp_all
+              · cases hh : get s.recs to <;> simp_all
+              · simpa using h4
+              · simpa using h6
+
+/-- **needs_target_signature**: an accepted migration carries a signature from which the (opaque) recovery function,
+applied to the (opaque) hash of prefix ++ source ++ target, yields exactly the target address -/
+theorem needs_target_signature {H S : Type} (hash : List Nat → H) (recover : H → S → Option Addr)
+    (pfx : List Nat) (enc : Addr → List Nat) (s s' : State) (frm to : Addr) (sig : S)
+    (h : migrate cfg s frm to (sigAccepted hash recover pfx enc frm to sig) = .ok s') :
+    recover (hash (pfx ++ (enc frm ++ enc to))) sig = some to := by
+  have h2 := (migrate_ok_inv h).2.1
+  unfold sigAccepted at h2
+  rw [signed_bytes_order] at h2
+  exact eq_of_beq h2
+
+/-- the signed bytes determine the (source, target) pair when addresses are encoded with a fixed width -/
+theorem signed_pair_injective (pfx : List Nat) (enc : Addr → List Nat) (w : Nat) (hw : ∀ a, (enc a).length = w)
+    (hinj : ∀ a b, enc a = enc b → a = b) (f t f' t' : Addr)
+    (h : pfx ++ (enc f ++ enc t) = pfx ++ (enc f' ++ enc t')) : f = f' ∧ t = t' := by
+  have h1 := List.append_cancel_left h
+  have h2 := List.append_inj h1 (by rw [hw, hw])
+  exact ⟨hinj _ _ h2.1, hinj _ _ h2.2⟩
+
+/-- **not_validator_operator**: neither side of an accepted migration is a validator operator -/
+theorem not_validator_operator {s s' : State} {frm to : Addr} {sigOk : Bool}
+    (h : migrate cfg s frm to sigOk = .ok s') : s.vals.contains frm = false ∧ s.vals.contains to = false := by
+  have h5 := (migrate_ok_inv h).2.2.2.2.2.1
+  unfold stakingValidate at h5
+  rw [cfg_from_code] at h5
+  simp only [Bool.true_and] at h5
+  split at h5
+  · cases h5
+  · rename_i hv
+    simpa using hv
+
+/-- **target_without_staking_records**: the target of an accepted migration has no delegation, unbonding delegation or
+redelegation record -/
+theorem target_without_staking_records {s s' : State} {frm to : Addr} {sigOk : Bool}
+    (h : migrate cfg s frm to sigOk = .ok s') :
+    (∀ p ∈ s.dels, p.1.1 ≠ to) ∧ (∀ p ∈ s.ubds, p.1.1 ≠ to) ∧ (∀ p ∈ s.reds, p.1.1 ≠ to) := by
+  have h5 := (migrate_ok_inv h).2.2.2.2.2.1
+  unfold stakingValidate at h5
+  rw [cfg_from_code] at h5
+  simp only [Bool.true_and] at h5
+  split at h5
+  · cases h5
+  · split at h5
+    · cases h5
+    · rename_i ht
+      simp only [Bool.or_eq_true, List.any_eq_true, not_or, not_exists, not_and] at ht
+      refine ⟨fun p hp e => ?_, fun p hp e => ?_, fun p hp e => ?_⟩
+      · exact ht.1.1 p hp (by simp [e])
+      · exact ht.1.2 p hp (by simp [e])
+      · exact ht.2 p hp (by simp [e])
+
+/-- involvement of `a` in proposal `id`: proposer, depositor, or (for proposals in the voting period) voter -/
+def involvedDeposit (s : State) (a : Addr) (id : Nat) : Prop :=
+  (∃ pr, get s.props id = some pr ∧ pr.proposer = a) ∨ (get s.deposits (id, a)).isSome = true
+
+def involvedVote (s : State) (a : Addr) (id : Nat) : Prop :=
+  involvedDeposit s a id ∨ (id, a) ∈ s.votes
+
+/-- **refused_while_in_open_proposal**: a proposal is open exactly while it sits in the inactive queue (deposit period)
+or the active queue (voting period) — the gov end blocker removes it at its end time.  If the source or the target is
+proposer or depositor of a proposal in the inactive queue, or proposer, depositor or voter of one in the active queue,
+whatever its end time, the migration is rejected. -/
+theorem refused_while_in_open_proposal (s : State) (frm to a : Addr) (sigOk : Bool) (id : Nat) (t : Time)
+    (ha : a = frm ∨ a = to)
+    (hopen : ((t, id) ∈ s.inactiveQ ∧ involvedDeposit s a id) ∨ ((t, id) ∈ s.activeQ ∧ involvedVote s a id)) :
+    ∀ s', migrate cfg s frm to sigOk ≠ .ok s' := by
+  intro s' h
+  have h6 := (migrate_ok_inv h).2.2.2.2.2.2.1
+  unfold govRefuses at h6
+  rw [cfg_from_code] at h6
+  simp only [Bool.true_or, Bool.or_eq_false_iff, List.any_eq_false] at h6
+  have hdep : ∀ id, involvedDeposit s a id → depositCb s frm to id = true := by
+    intro id hi
+    unfold depositCb
+    rcases hi with ⟨pr, hp, he⟩ | hd
+    · rw [hp]; rcases ha with rfl | rfl <;> simp [he]
+    · cases hp : get s.props id with
+      | none => rfl
+      | some pr => rcases ha with rfl | rfl <;> simp [hd]
+  rcases hopen with ⟨hq, hi⟩ | ⟨hq, hi⟩
+  · exact h6.1 (t, id) (List.mem_filter.mpr ⟨hq, rfl⟩) (hdep id hi)
+  · apply h6.2 (t, id) (List.mem_filter.mpr ⟨hq, rfl⟩)
+    unfold voteCb
+    rcases hi with hi | hv
+    · simp [hdep id hi]
+    · rcases ha with rfl | rfl <;> simp [hv]
+
 end FxVerif.Props.C14
